@@ -85,6 +85,33 @@ class State:
         return [e for e in self.events if e.kind in ('setattr', 'setitem')]
 
 
+_LOCAL_FNS: Dict[str, FunctionInfo] = {}
+
+
+def _subst_terms(t, m):
+    if isinstance(t, tuple):
+        if t in m:
+            return m[t]
+        return tuple(_subst_terms(x, m) for x in t)
+    return t
+
+
+def _rebuild_free(x, free):
+    """Free variables of a nested function appear as unresolved globals (``self.a.b`` folded
+    into one dotted name): rebuilt from the environment frozen at the definition."""
+    if isinstance(x, tuple):
+        if len(x) == 2 and x[0] == 'global' and isinstance(x[1], str) and \
+                x[1].startswith('builtins.'):
+            parts = x[1][len('builtins.'):].split('.')
+            if parts[0] in free:
+                v = free[parts[0]]
+                for a in parts[1:]:
+                    v = ('attr', v, a)
+                return v
+        return tuple(_rebuild_free(y, free) for y in x)
+    return x
+
+
 class _ForkInline(Exception):
     def __init__(self, node, paths_):
         self.node = node
@@ -306,6 +333,7 @@ class Evaluator:
         fi = FunctionInfo(st.name, f'{self.fn.qualname}.<locals>.{st.name}@{st.lineno}', st, self.module,
                           self.fn.cls, 'function', parent=self.fn)
         self.local_fns[fi.qualname] = fi
+        _LOCAL_FNS[fi.qualname] = fi
         s.env[st.name] = ('localfn', fi.qualname, _freeze_env(s.env, _free_names(st)))
         return [s]
 
@@ -838,6 +866,30 @@ class Evaluator:
             if args[0][0] == 'global':
                 s.types[args[1]] = args[0][1]
             return args[1]
+        # beta-reduction: a lambda / local function value called where it is known (typically a
+        # callable handed to an inlined helper)
+        if f[0] == 'lambda' and not kws and self._depth > 0:
+            m = {('bound', p.lstrip('*')): a for p, a in zip(f[1], args)}
+            if len(m) == len(f[1]) == len(args):
+                return _subst_terms(f[2], m)
+        if f[0] == 'localfn' and f[1] in _LOCAL_FNS and 0 < self._depth < 3:
+            fi = _LOCAL_FNS[f[1]]
+            cbind = {p: a for p, a in zip(fi.params, args)}
+            for k, a in kws:
+                cbind[k] = a
+            try:
+                sub = Evaluator(self.repo, fi, cbind, self.max_paths, self.loop_unroll,
+                                self.inline, self._depth + 1).run()
+            except AnalysisError:
+                sub = []
+            rets = [q for q in sub if q.status == 'return']
+            if len(rets) == 1 and rets[0].retval is not None:
+                free = dict(f[2])
+                q = rets[0]
+                q.events = [Event(ev.kind, tuple(_rebuild_free(x, free) for x in ev.data),
+                                  ev.node, ev.ctx) for ev in q.events]
+                self._splice(s, q, e)
+                return _rebuild_free(q.retval, free)
         tgt = self._inline_target(f, args, kws)
         if tgt is not None:
             if id(e) in self._forced:
